@@ -149,7 +149,9 @@ def run(tier):
     for sql, kw in KEYWORD_DECOYS:
         decoys.append({"sql": sql, "shape": "niladic_keyword:" + kw,
                        "want": {"tables": ["t1"], "columns": [c for c in ["a", "b"] if (" %s " % c) in sql.replace(",", " ")],
-                                "qcolumns": [["", c] for c in ["a", "b"] if (" %s " % c) in sql.replace(",", " ")], "functions": []}})
+                                "qcolumns": [["", c] for c in ["a", "b"] if (" %s " % c) in sql.replace(",", " ")],
+                                # CURRENT_DATE & co. are the SQL-92 datetime value FUNCTIONS written without parentheses (/repo c387258)
+                                "functions": [kw] if kw.startswith("CURRENT_") else []}})
     corpus = sqlgen.corpus_statements() + sqlgen.generated_statements(rng, 300 if quick else 4000) + sqlgen.SPECIAL
     inputs = [d for _, _, d in ref] + decoys + [{"sql": s} for s in corpus]
     for i, d in enumerate(inputs):
